@@ -184,6 +184,22 @@ STRUCTURAL_GUARDS = [
 ]
 
 
+def _is_attach_filter(gd: str) -> bool:
+    """The guard is the list of attached controllers itself (`[n for n, c in module.controllers.items() if c.attached(module)]`):
+    CVAL/CMID are emitted for attached controllers only — decided by C02 R2."""
+    try:
+        e = ast.parse(gd, mode="eval").body
+    except SyntaxError:
+        return False
+    while isinstance(e, ast.UnaryOp) and isinstance(e.op, ast.Not):
+        e = e.operand
+    if isinstance(e, (ast.ListComp, ast.GeneratorExp)) and len(e.generators) == 1:
+        g = e.generators[0]
+        return norm(g.iter).endswith(".controllers.items()") and len(g.ifs) == 1 and isinstance(g.ifs[0], ast.Call) \
+            and isinstance(g.ifs[0].func, ast.Attribute) and g.ifs[0].func.attr == "attached"
+    return False
+
+
 def omission_defaults(repo: Repo, rep, P: str, secs):
     owners = {
         "project": repo.cls("Project", module="rv.project"),
@@ -200,7 +216,7 @@ def omission_defaults(repo: Repo, rep, P: str, secs):
             for gd in w.guards:
                 from ..guards import canon_text
                 cg = canon_text(gd)
-                if any(cg == canon_text(s) for s, _ in STRUCTURAL_GUARDS) or gd.startswith("[n for n, c in"):
+                if any(cg == canon_text(s) for s, _ in STRUCTURAL_GUARDS) or _is_attach_filter(gd):
                     continue
                 n += 1
                 wcon = f"{w.rel}:{w.fn}[{w.cid}]"
